@@ -84,7 +84,52 @@ def _atom(name):
     return ATOM_MAKERS[ATOM_INDEX[name]][1]()
 
 
-def build_value(t: Tape, g: Grammar, depth=None, top=True):
+class NestedGrammar:
+    """Two-level merges: a list (or tuple) of <= max_len elements, each a str-keyed dict over a key
+    subset of `keys` with <= dict_max keys (the value type is determined by the key, so that
+    differing keys mean differing value types), an int-keyed dict, or an atom.  This is the shape
+    that makes shrink_types merge TypedDicts which themselves carry optional fields."""
+
+    KEY_VALUES = {"a": 1, "b": "s", "c": None, "d": 2.5}
+
+    def __init__(self, keys=("a", "b", "c"), dict_max=2, max_len=2, outer=("list",), extras=("int",)):
+        self.keys, self.dict_max, self.max_len, self.outer, self.extras = tuple(keys), dict_max, max_len, tuple(outer), tuple(extras)
+        self.max_size = max_len
+        self.depth = 2
+
+    def describe(self):
+        return {"outer": self.outer, "max_len": self.max_len, "element": "str-keyed dict over a key subset", "keys": self.keys,
+                "max_dict_size": self.dict_max, "value_type_by_key": {k: type(v).__name__ for k, v in self.KEY_VALUES.items() if k in self.keys},
+                "extra_elements": self.extras}
+
+    def tape_len(self):
+        return 2 + self.max_len * (1 + len(self.keys))
+
+    def element(self, t):
+        c = t.take(1 + len(self.extras))
+        if c > 0:
+            return _atom(self.extras[c - 1])
+        d = {}
+        for k in self.keys:
+            if t.take(2) == 1 and len(d) < self.dict_max:
+                d[k] = self.KEY_VALUES[k]
+        return d
+
+    def build(self, t):
+        o = self.outer[t.take(len(self.outer))]
+        n = t.take(self.max_len + 1)
+        elems = [self.element(t) for _ in range(n)]
+        return elems if o == "list" else tuple(elems)
+
+
+G_NESTED = NestedGrammar()
+G_NESTED2 = NestedGrammar(keys=("a", "b"), dict_max=2, max_len=2)
+G_NESTED4 = NestedGrammar(keys=("a", "b", "c", "d"), dict_max=3, max_len=2, outer=("list", "tuple"))
+
+
+def build_value(t: Tape, g, depth=None, top=True):
+    if hasattr(g, "build"):
+        return g.build(t)
     if depth is None:
         depth = g.depth
     atoms = g.top_atoms if top else g.elem_atoms
